@@ -27,6 +27,45 @@ def slim(ev):
     return e
 
 
+def library_panic(err):
+    """stderr of a crashed harness: did a goroutine of the real code panic (not the harness itself)?"""
+    i = max(err.find("panic:"), err.find("fatal error:"))
+    if i < 0:
+        return None
+    block = err[i:i + 3000]
+    frames = [l for l in block.splitlines() if "(" in l and not l.startswith(("\t", "panic", "goroutine", "["))]
+    for fr in frames[:4]:
+        if fr.startswith("main."):
+            return None
+        if "obitools4/pkg/" in fr:
+            return block[:600]
+    return None
+
+
+def run_harness(ctx, args, out, step):
+    """Run the harness; a panic inside a goroutine of the library (it ends the process) is a violation, reported
+    together with the failures already written; any other failure of the harness is inconclusive."""
+    p = ctx.harness(args, timeout=3000, check=False)
+    if p.returncode == 0:
+        return True
+    excerpt = library_panic(p.stderr or "")
+    if excerpt is None:
+        raise vlib.Inconclusive("harness failed rc=%d: %s\n%s" % (p.returncode, args[:3], (p.stderr or p.stdout)[-3000:]))
+    n = 0
+    if os.path.exists(out):
+        for line in open(out):
+            try:
+                r = json.loads(line)
+            except ValueError:
+                continue
+            if step == "replay" and "assert" in r:
+                ctx.violation(r["assert"], r.get("class", ""), r.get("detail", ""), r.get("case"))
+                n += 1
+    ctx.violation("C01.%s.crash" % step, "", "the real code panicked in one of its own goroutines on a well-formed input "
+                  "(%d other failures had been written): %s" % (n, excerpt), {"stage": "crash", "stderr": excerpt})
+    return False
+
+
 def validate_trace(ctx, events, label):
     """TLC on ChunkerTrace for a list of events (split so that one JSON trace stays small)."""
     part = 400
@@ -108,8 +147,8 @@ def main(ctx):
     sel = ctx.path("replay_cases.ndjson")
     vlib.write_ndjson(sel, chosen)
     res = ctx.path("res.ndjson")
-    ctx.harness(["replay", "C01", "--cases", sel, "--out", res, "--opt", "variants=" + ("all" if thorough else "rotate")], timeout=3000)
-    ctx.add_results(res)
+    if run_harness(ctx, ["replay", "C01", "--cases", sel, "--out", res, "--opt", "variants=" + ("all" if thorough else "rotate")], res, "replay"):
+        ctx.add_results(res)
     ctx.extra["replayed_files"] = len(chosen)
     need = ["fasta/whole", "fastq/whole", "genbank/whole", "embl/whole", "fasta/reader", "fastq/reader", "genbank/reader",
             "embl/reader", "fasta/kseq", "fastq/kseq", "fasta/chunks=2", "fastq/chunks=2", "genbank/chunks=2", "embl/chunks=2",
@@ -117,17 +156,26 @@ def main(ctx):
             "genbank/XX", "embl/XX", "genbank/tt", "embl/tt", "genbank/DD", "embl/DD"]
     if thorough:
         need += ["fasta/chunks=3", "fastq/chunks=3", "genbank/chunks=3", "embl/chunks=3"]
-    for n in need:
-        ctx.expect_vacuity("replay class " + n, ctx.classes.get(n, 0))
+    if not ctx.violations:          # (a violation may be the very reason why a class was not reached)
+        for n in need:
+            ctx.expect_vacuity("replay class " + n, ctx.classes.get(n, 0))
 
     # T ---------------------------------------------------------------------------------------------------
     bindir = ctx.build_cmds(["obiconvert"])
     trace = ctx.path("trace.ndjson")
-    ctx.harness(["record", "C01", "--out", trace, "--n", 400 if thorough else 22, "--opt", "shapes=" + shapes,
+    crashed = not run_harness(ctx, ["record", "C01", "--out", trace, "--n", 400 if thorough else 22, "--opt", "shapes=" + shapes,
                  "--opt", "bindir=" + bindir, "--opt", "thorough=%d" % (1 if thorough else 0),
-                 "--opt", "dir=" + ctx.path("bigfiles"), "--opt", "flat128=%d" % (1 if thorough else 0), "--opt", "cmdevery=%d" % (4 if thorough else 5)], timeout=3000)
-    events = [json.loads(l) for l in open(trace) if l.strip()]
-    os.remove(trace)
+                 "--opt", "dir=" + ctx.path("bigfiles"), "--opt", "flat128=%d" % (1 if thorough else 0), "--opt", "cmdevery=%d" % (4 if thorough else 5)], trace, "record")
+    events = []
+    for l in open(trace) if os.path.exists(trace) else []:
+        try:
+            events.append(json.loads(l))
+        except ValueError:      # torn last line of a crashed run
+            pass
+    if os.path.exists(trace):
+        os.remove(trace)
+    if crashed and not events:
+        return ctx.finish()
     ctx.expect_vacuity("recorded runs", len(events))
     tcls = {}
     for e in events:
@@ -144,10 +192,9 @@ def main(ctx):
               "racing-parsers/fastq", "read/fasta/gz", "read/fastq/gz", "read/fasta/kseq", "read/fastq/kseq",
               "read/genbank/file", "read/embl/file",
               "cmd/fasta/file", "cmd/fasta/stdin", "cmd/fasta/gz", "cmd/fastq/file", "cmd/fastq/stdin", "cmd/fastq/gz",
-              "boundary/fastq/eQ", "boundary/fastq/Qq", "boundary/fastq/eP", "boundary/fasta/multi", "boundary/fastq/multi"]:
-        ctx.expect_vacuity("trace class " + n, tcls.get(n, 0))
-    if thorough:
-        for n in ["boundary/genbank/128MiB", "boundary/embl/128MiB"]:
+              "boundary/fastq/eQ", "boundary/fastq/Qq", "boundary/fastq/eP", "boundary/fasta/multi", "boundary/fastq/multi"] + \
+            (["boundary/genbank/128MiB", "boundary/embl/128MiB"] if thorough else []):
+        if not crashed and not ctx.violations:
             ctx.expect_vacuity("trace class " + n, tcls.get(n, 0))
     validate_trace(ctx, events, "t")
     ctx.samples.append({"trace_event": slim(events[0])})
